@@ -277,6 +277,12 @@ def bounded(tier, seed):
                         samples.append(dict(code=name, size=size, deformation=defo, rotated_picture=rotated, ok=w is None))
                     if w:
                         viol.append(dict(obligation='C20.bounded.code-data[%s]' % name, input=dict(code=name, size=list(size), deformation=defo, rotated_picture=rotated), detail=w))
+        # request history: after deformed variants were served, the undeformed code of the same size must still be served faithfully
+        for size in good[: (2 if tier == 'quick' else 8)]:
+            w = native_code_data(cl, label, cls, size, None, False)
+            ev += 1; nt.add((name, size, 'None-after-deformed'))
+            if w:
+                viol.append(dict(obligation='C20.bounded.history[%s]' % name, input=dict(code=name, size=list(size), deformation=None, rotated_picture=False, after='deformed requests for the same size'), detail=w))
         # one decode per offered decoder on the smallest supported size
         if good:
             size = sorted(good)[0]
